@@ -170,6 +170,7 @@ pub fn prop() -> HistProp {
             let mut w = Weights::trading();
             w.alias = 8;
             w.rewire = 1;
+            w.intruder = 2;
             w
         },
         min_ops: 6,
